@@ -64,6 +64,22 @@ def verify_function(prog, spec, con, mode='seq', options=None):
             break
     ex.fn_old = old
     short = prog.short(con.fn)
+    # probe expressions: evaluated in the model of a failed obligation, they are the concrete inputs of the replay
+    ex.probe_terms = []
+    if 'c' in env and short.startswith('(*xsyncMap'):
+        of = 'Of' if 'xsyncMapOf' in short else ''
+        pnames = set(p['n'] for p in f['params'])
+        cand = [('now', 'now'), ('def', 'DEXP(c)')]
+        if 'k' in pnames:
+            cand += [('present', 'present(view(c.items)[k])'), ('e', 'IE%s(val(view(c.items)[k]))' % of)]
+        if 'd' in pnames:
+            cand.append(('d', 'd'))
+        for nm, src in cand:
+            try:
+                scratch = old.copy()
+                ex.probe_terms.append((nm, spec.eval(ex, specparse.parse_expr(src), env, scratch, scratch).x))
+            except Exception:
+                pass
 
     def at_return(stf, res):
         env2 = dict(env)
@@ -208,7 +224,7 @@ def solve(assumptions, neg_goal, timeout_ms):
     return s, res, reason
 
 
-def discharge(obls, timeout_ms=10000, external=True):
+def discharge(obls, timeout_ms=10000, external=True, hints=None):
     """Returns list of Result.  Stages: (1) z3 5.1.0 (python API) on the VC as generated; (2) goal skolemised and the
     quantified hypotheses instantiated at the ground terms of the query (only instances of assumed formulas are added);
     (3) the stage-2 query dumped as SMT-LIB and raced on /usr/bin/z3 (4.8.12) and cvc5."""
@@ -262,9 +278,24 @@ def discharge(obls, timeout_ms=10000, external=True):
                 r.status = 'unsat'
                 r.solver = 'z3-5.1.0+qf'
                 done = True
-        if quant and not done:
+        hint = (hints or {}).get(re.sub(r'@L\d+', '', re.sub(r'#[0-9TF.]*$', '', o.name)))
+        if quant and not done and hint == 'ext' and external:
+            # the committed baseline recorded that only the external solvers decided this obligation: ask them first
+            sx = z3.Solver()
+            sx.add(*o.assumptions)
+            sx.add(z3.Not(o.goal))
+            st2, solver2, t2 = race_external(sx.to_smt2(), timeout_ms / 1000.0)
+            if st2 == 'unsat':
+                r.status = 'unsat'
+                r.solver = solver2
+                done = True
+        st_ = {'done': done, 'res': res, 'reason': reason, 's': None}
+
+        def stage_E():
             # stage E: E-matching only (triggers chosen by the spec evaluator, model-based instantiation off): fast and
             # predictable when the needed instances are reachable through the triggers
+            if not quant:
+                return
             se = z3.Solver()
             se.set('timeout', int(min(timeout_ms, 6000)))
             se.set('auto_config', False)
@@ -275,21 +306,26 @@ def discharge(obls, timeout_ms=10000, external=True):
                 if se.check() == z3.unsat:
                     r.status = 'unsat'
                     r.solver = 'z3-5.1.0+ematch'
-                    done = True
+                    st_['done'] = True
             except z3.Z3Exception:
                 pass
-        if not done:
+
+        def stage_plain():
             first_to = timeout_ms if not quant else min(timeout_ms, 1500)
-            s, res, reason = solve(o.assumptions, z3.Not(o.goal), first_to)
-            if res == z3.unsat:
+            s, res_, reason_ = solve(o.assumptions, z3.Not(o.goal), first_to)
+            st_['res'], st_['reason'], st_['s'] = res_, reason_, s
+            if res_ == z3.unsat:
                 r.status = 'unsat'
-                done = True
-            elif res == z3.sat:
+                st_['done'] = True
+            elif res_ == z3.sat:
                 r.status = 'sat'
                 r.model = model_to_dict(s.model())
-                done = True
-        if quant and not done:
+                st_['done'] = True
+
+        def stage_A():
             # stage A: skolemised goal, ground instances only (quantifier-free; sound for proving)
+            if not quant:
+                return
             try:
                 pairs = INST.flatten(o.goal)
                 allok = True
@@ -312,9 +348,15 @@ def discharge(obls, timeout_ms=10000, external=True):
                 if allok:
                     r.status = 'unsat'
                     r.solver = 'z3-5.1.0+inst'
-                    done = True
+                    st_['done'] = True
             except z3.Z3Exception as e:
                 r.reason = str(e)
+
+        order = (stage_A, stage_E, stage_plain) if hint == 'inst' else (stage_E, stage_plain, stage_A)
+        for stg in order:
+            if not st_['done']:
+                stg()
+        done, res, reason = st_['done'], st_['res'], st_['reason']
         if not done:
             if True:
                 r.status = 'unknown'
@@ -348,8 +390,11 @@ def discharge(obls, timeout_ms=10000, external=True):
                                 r.solver = solver2 + '+inst'
                     except z3.Z3Exception as e:
                         r.reason = str(e)
-                elif external:
-                    st2, solver2, t2 = race_external(s.to_smt2(), timeout_ms / 1000.0)
+                elif external and hint != 'ext':
+                    sx = z3.Solver()
+                    sx.add(*o.assumptions)
+                    sx.add(z3.Not(o.goal))
+                    st2, solver2, t2 = race_external(sx.to_smt2(), timeout_ms / 1000.0)
                     if st2 in ('unsat', 'sat'):
                         r.status = st2
                         r.solver = solver2
